@@ -3,6 +3,7 @@ import StorageModel.C15.Config
 import StorageModel.C15.Cursor
 import StorageModel.C15.Order
 import StorageModel.C15.Extended
+import StorageModel.C15.Layout
 /-
   C15 — Parent and child (extension) stores stay consistent.
 
@@ -472,6 +473,165 @@ example : (deleteWhereM sampleMixed .A1 .tt).toOption.map (fun st => idsInOrder 
     (deleteWhereM sampleMixed .A1 (.hasRole 1)).toOption.map (fun st => (idsInOrder st, rolesIndexIds st 1)) = some ([1, 2, 3, 5, 6], [3]) := by
   decide
 
+/-! ### the shape of the layering: child data paths of any length
+
+  `Schema` = the `BasePath`s of the two child stores (the sub-path of the child's data bucket inside
+  the parent's entity bucket; one or more segments; shared prefixes such as ext/a, ext/b allowed;
+  well-formed = non-empty and neither a prefix of the other).  `StC`, `stepC`, `runC`
+  (C15/Layout.lean) are the stores over real bucket trees: `getOrCreateEntityBucket` creates the
+  whole path, the child's strategy writes its field into that bucket and — through
+  `PersistContext.GetParentContext` — the shared fields into the parent's *entity bucket*;
+  `absSt` is what the stores read back through these paths. -/
+
+/-- a state of the stores over real bucket trees reached by any history, for a schema -/
+def ReachedC (sch : Schema) (stc : StC) : Prop :=
+  ∃ hist : List (List OpX), stc = runC Config.current sch StC.init hist
+
+/-- **Every path shape behaves alike**: for every well-formed schema and every history, what the
+    stores read back from the real buckets is the state of the model all other theorems speak
+    about — so each of them holds for child paths of every length. -/
+theorem layering_shape_irrelevant (sch : Schema) (hw : sch.wellFormed = true) (hist : List (List OpX)) :
+    absSt sch (runC Config.current sch StC.init hist) = runX Config.current St.init hist ∧
+    (runC Config.current sch StC.init hist).OK := by
+  have := runC_simulates Config.current sch hw hist StC.init StC.init_ok
+  rwa [absSt_init] at this
+
+theorem reachedC_reached {sch : Schema} (hw : sch.wellFormed = true) {stc : StC} (h : ReachedC sch stc) :
+    Reached (absSt sch stc) ∧ stc.OK := by
+  obtain ⟨hist, rfl⟩ := h
+  obtain ⟨h1, h2⟩ := layering_shape_irrelevant sch hw hist
+  exact ⟨⟨hist, h1⟩, h2⟩
+
+/-- the invariant (parent indexes = exact image of what is read through the paths; no empty name),
+    for every path shape and every history -/
+theorem invariant_for_every_path (sch : Schema) (hw : sch.wellFormed = true) (hist : List (List OpX)) :
+    Inv (absSt sch (runC Config.current sch StC.init hist)) := by
+  rw [(layering_shape_irrelevant sch hw hist).1]
+  exact parent_constraints_apply_to_child_entities hist
+
+/-- **An entity created through the child exists in both — for every path shape**: after a
+    successful `Create` through a child store whose data path is `sch.childPath s`, the shared
+    fields are in the parent's entity bucket itself, the child's data bucket exists at its path with
+    the child's field in it, and (reading back through the paths) everything
+    `create_through_child_exists_in_both` says holds. -/
+theorem create_through_child_exists_in_both_for_every_path (sch : Schema) (hw : sch.wellFormed = true)
+    (stc : StC) (hr : ReachedC sch stc) (s : Sel) (hs : s = .A1 ∨ s = .A2) (id : Id) (p : Payload) (stc' : StC)
+    (h : createC Config.current sch stc s id p = .ok stc') :
+    (∃ t, mget stc'.trees id = some t ∧
+      t.get [] "name" = some (.str (some p.name)) ∧ t.get [] "roles" = some (.list (canon p.roles)) ∧
+      t.getPath (sch.childPath s) = true ∧ t.get (sch.childPath s) (childKey s) = some (.str p.child)) ∧
+    findById (absSt sch stc') .A id = some (p.name, canon p.roles, none) ∧
+    findById (absSt sch stc') s id = some (p.name, canon p.roles, p.child) ∧
+    id ∈ queryIds (absSt sch stc') .A .tt ∧ id ∈ queryIds (absSt sch stc') s .tt ∧
+    id ∈ iterateValidIds (absSt sch stc') s .tt ∧
+    mget stc'.nameIdx p.name = some id ∧ (∀ r, r ∈ p.roles → (r, id) ∈ stc'.rolesIdx) := by
+  obtain ⟨hreach, hok⟩ := reachedC_reached hw hr
+  have hsim := createC_simulates Config.current sch hw stc hok s id p
+  rw [h] at hsim
+  have habs := create_through_child_exists_in_both (absSt sch stc) hreach s hs id p (absSt sch stc') hsim.1
+  refine ⟨?_, habs⟩
+  unfold createC at h
+  cases hc : createV Config.current (absSt sch stc) s id p with
+  | error e => simp [hc] at h
+  | ok st' =>
+    simp only [hc] at h
+    cases h
+    refine ⟨persistC sch (createBucketC sch (entTree stc id) s) s p none, by simp [StC.withIdx], ?_⟩
+    have hpres := createBucketC_present sch (entTree stc id) s
+    rcases hs with rfl | rfl
+    · simp only [Schema.childPath] at hpres
+      simp [persistC, persistCAt, writeShared, proceed, Schema.childPath, childKey, Tree.get_set, hpres]
+    · simp only [Schema.childPath] at hpres
+      simp [persistC, persistCAt, writeShared, proceed, Schema.childPath, childKey, Tree.get_set, hpres]
+
+/-- **Updating through either store is the same operation — for every path shape**: for an entity
+    with child data the parent store's `Update` over the real buckets is literally the child
+    store's (same trees, same indexes, same error). -/
+theorem update_either_route_same_state_for_every_path (sch : Schema) (stc : StC) (id : Id) (t : Tree)
+    (hm : mget stc.trees id = some t) (p : Payload) (chk : Option Checker) :
+    (t.getPath sch.p1 = true →
+      updateC sch stc .A id p chk = updateC sch stc .A1 id { p with child := cellStr (t.get sch.p1 "code") } chk) ∧
+    (t.getPath sch.p1 = false → t.getPath sch.p2 = true →
+      updateC sch stc .A id p chk = updateC sch stc .A2 id { p with child := cellStr (t.get sch.p2 "colour") } chk) := by
+  have hget : mget (absSt sch stc).ents id = some (viewC sch t) := by rw [absSt_get, hm]; rfl
+  constructor
+  · intro h1
+    have hc1 : (viewC sch t).hasChild .A1 = true := by simp [viewC, Ent.hasChild, h1]
+    have hf : (viewC sch t).childField .A1 = cellStr (t.get sch.p1 "code") := by simp [viewC, Ent.childField, h1]
+    have hv := (reject_either_route_same (absSt sch stc) id p chk).2.2.1 _ hget hc1
+    have hp1 : isEntityPresent (absSt sch stc) .A1 id = true := by simp [isEntityPresent, hget, hc1]
+    unfold updateC
+    rw [hv, hf]
+    simp [updTarget, updPayload, hp1, hget, hc1, hf]
+  · intro h1 h2
+    have hc1 : (viewC sch t).hasChild .A1 = false := by simp [viewC, Ent.hasChild, h1]
+    have hc2 : (viewC sch t).hasChild .A2 = true := by simp [viewC, Ent.hasChild, h2]
+    have hf : (viewC sch t).childField .A2 = cellStr (t.get sch.p2 "colour") := by simp [viewC, Ent.childField, h2]
+    have hv := (reject_either_route_same (absSt sch stc) id p chk).2.2.2.1 _ hget hc1 hc2
+    have hp1 : isEntityPresent (absSt sch stc) .A1 id = false := by simp [isEntityPresent, hget, hc1]
+    have hp2 : isEntityPresent (absSt sch stc) .A2 id = true := by simp [isEntityPresent, hget, hc2]
+    unfold updateC
+    rw [hv, hf]
+    simp [updTarget, updPayload, hp1, hp2, hget, hc1, hc2, hf]
+
+/-- **The parent part and the child parts of an entity live in buckets that do not contain each
+    other's fields**: the parent's fields are in the entity bucket, each child's field in its own
+    data bucket, which is neither the entity bucket nor inside (or around) the other child's data
+    bucket; hence what the parent strategy persists leaves both children's presence and fields
+    as they were, what a child persists leaves the shared fields and the other child's part as they
+    were, and creating one child's data bucket does not make the other child's appear. -/
+theorem parent_and_child_parts_disjoint (sch : Schema) (hw : sch.wellFormed = true) :
+    (sch.p1 ≠ [] ∧ sch.p2 ≠ [] ∧ sch.p1.isPrefixOf sch.p2 = false ∧ sch.p2.isPrefixOf sch.p1 = false) ∧
+    (∀ t p chk, (viewC sch (writeShared t [] p chk)).c1 = (viewC sch t).c1 ∧
+      (viewC sch (writeShared t [] p chk)).c2 = (viewC sch t).c2) ∧
+    (∀ t c, (viewC sch (t.set sch.p1 "code" c)).name = (viewC sch t).name ∧
+      (viewC sch (t.set sch.p1 "code" c)).roles = (viewC sch t).roles ∧
+      (viewC sch (t.set sch.p1 "code" c)).c2 = (viewC sch t).c2) ∧
+    (∀ t c, (viewC sch (t.set sch.p2 "colour" c)).name = (viewC sch t).name ∧
+      (viewC sch (t.set sch.p2 "colour" c)).roles = (viewC sch t).roles ∧
+      (viewC sch (t.set sch.p2 "colour" c)).c1 = (viewC sch t).c1) ∧
+    (∀ t, (createBucketC sch t .A1).getPath sch.p2 = t.getPath sch.p2 ∧
+      (createBucketC sch t .A2).getPath sch.p1 = t.getPath sch.p1) := by
+  have f := sch.facts hw
+  have a1 : ¬ (sch.p1 = ([] : Path)) := f.ne1
+  have a2 : ¬ (sch.p2 = ([] : Path)) := f.ne2
+  have a3 : ¬ (sch.p2 = sch.p1) := fun e => f.ne12 e.symm
+  refine ⟨⟨f.ne1, f.ne2, f.n12, f.n21⟩, ?_, ?_, ?_, ?_⟩
+  · intro t p chk
+    rw [viewC_writeShared sch hw]
+    exact ⟨rfl, rfl⟩
+  · intro t c
+    simp [viewC, Tree.get_set, a1, f.ne12]
+  · intro t c
+    simp [viewC, Tree.get_set, a2, a3]
+  · intro t
+    simp [createBucketC, Schema.childPath, Tree.getPath_getOrCreatePath, f.n12, f.n21]
+
+/-- why `GetParentContext` must look the parent's entity bucket up through the parent store: taking
+    "the bucket one level above the child's data bucket" is the entity bucket only for one-segment
+    child paths — with the path ext/mgr the shared fields land in `<entity>/ext` and the parent
+    reads nothing (seeded change C15-9) -/
+example :
+    let sch : Schema := ⟨["ext", "mgr"], ["ext", "tl"]⟩
+    let t := createBucketC sch Tree.empty .A1
+    sch.wellFormed = true ∧
+    (viewC sch (persistC sch t .A1 ⟨1, [2], some 3⟩ none)) = ⟨1, [2], some (some 3), none⟩ ∧
+    (viewC sch (persistCAt sch.p1.dropLast sch t .A1 ⟨1, [2], some 3⟩ none)) = ⟨0, [], some (some 3), none⟩ := by
+  decide
+
+/-- non-vacuity: three-segment and shared-prefix paths; an A1 create, an A2 create over it, an
+    update through the parent and a DeleteWhere through A1 -/
+example :
+    let sch : Schema := ⟨["x", "y", "a"], ["x", "b"]⟩
+    let stc := runC Config.current sch StC.init
+      [[.create .A1 1 ⟨1, [1], some 1⟩, .create .A2 1 ⟨1, [1], some 2⟩, .create .A 2 ⟨2, [], none⟩],
+       [.update .A 1 ⟨3, [2], none⟩ none]]
+    sch.wellFormed = true ∧
+    findById (absSt sch stc) .A1 1 = some (3, [2], some 1) ∧ findById (absSt sch stc) .A2 1 = some (3, [2], some 2) ∧
+    queryIds (absSt sch stc) .A1 .tt = [1] ∧
+    (stepTxC Config.current sch stc [.deleteWhere .A1 .tt]).trees.map (·.1) = [2] := by
+  decide
+
 /-! ### two child stores of one parent: the registration order -/
 
 /-- **Every child store of the parent takes part in `Update` and `DeleteById` whichever was
@@ -589,4 +749,9 @@ end StorageModel.Properties.C15
 #print axioms StorageModel.Properties.C15.delete_where_exact
 #print axioms StorageModel.Properties.C15.delete_where_through_child_spares_plain_parents
 #print axioms StorageModel.Properties.C15.reject_either_route_same
+#print axioms StorageModel.Properties.C15.layering_shape_irrelevant
+#print axioms StorageModel.Properties.C15.invariant_for_every_path
+#print axioms StorageModel.Properties.C15.create_through_child_exists_in_both_for_every_path
+#print axioms StorageModel.Properties.C15.update_either_route_same_state_for_every_path
+#print axioms StorageModel.Properties.C15.parent_and_child_parts_disjoint
 #print axioms StorageModel.Properties.C15.pinned_create_violates
